@@ -48,3 +48,42 @@ def Auto.acceptsInp (a : Auto) (w : List Inp) : Bool :=
   | none => false
 
 end Complgen
+
+namespace Complgen
+
+mutual
+/-- number of leaves (= positions `do_from_expr` allocates); a juxtaposition is one leaf -/
+def Expr.leafCount : Expr → Nat
+  | .term .. | .nonterm .. | .cmd .. | .sub .. => 1
+  | .seq cs _ | .alt cs _ | .fb cs _ => ExprL.leafCount cs
+  | .opt c _ | .many1 c _ => Expr.leafCount c
+  | .dd .. => 0
+def ExprL.leafCount : ExprL → Nat
+  | .nil => 0
+  | .cons e es => Expr.leafCount e + ExprL.leafCount es
+end
+
+mutual
+/-- Meaning of an expression as a language over its leaves, the leaves being numbered from `i`
+left to right: sequence = concatenation, `|` and `||` = union, `[e]` = `e` or nothing,
+`e...` = one or more repetitions. -/
+def Expr.denPos : Expr → Nat → List Nat → Prop
+  | .term .., i, w => w = [i]
+  | .nonterm .., i, w => w = [i]
+  | .cmd .., i, w => w = [i]
+  | .sub .., i, w => w = [i]
+  | .seq cs _, i, w => ExprL.denSeq cs i w
+  | .alt cs _, i, w => ExprL.denAlt cs i w
+  | .fb cs _, i, w => ExprL.denAlt cs i w
+  | .opt c _, i, w => w = [] ∨ Expr.denPos c i w
+  | .many1 c _, i, w => ∃ ws : List (List Nat), ws ≠ [] ∧ w = ws.flatten ∧ ∀ u ∈ ws, Expr.denPos c i u
+  | .dd .., _, w => w = []
+def ExprL.denSeq : ExprL → Nat → List Nat → Prop
+  | .nil, _, w => w = []
+  | .cons e es, i, w => ∃ u v, w = u ++ v ∧ Expr.denPos e i u ∧ ExprL.denSeq es (i + Expr.leafCount e) v
+def ExprL.denAlt : ExprL → Nat → List Nat → Prop
+  | .nil, _, _ => False
+  | .cons e es, i, w => Expr.denPos e i w ∨ ExprL.denAlt es (i + Expr.leafCount e) w
+end
+
+end Complgen
